@@ -382,6 +382,8 @@ TASK_STATE_MACHINE_DATA = {
         events.ACTION_ABANDONED_TASK_DORMANT_ITEMS_FAILED: statuses.FAILED,
         events.ACTION_ABANDONED_TASK_DORMANT_ITEMS_INCOMPLETE: statuses.FAILED,
         events.ACTION_ABANDONED_TASK_DORMANT_ITEMS_COMPLETED: statuses.FAILED,
+        # The action may complete before the request to pause takes effect.
+        events.ACTION_SUCCEEDED: statuses.SUCCEEDED,
         events.ACTION_SUCCEEDED_TASK_DORMANT_ITEMS_PAUSED: statuses.PAUSED,
         events.ACTION_SUCCEEDED_TASK_DORMANT_ITEMS_CANCELED: statuses.CANCELED,
         events.ACTION_SUCCEEDED_TASK_DORMANT_ITEMS_FAILED: statuses.FAILED,
@@ -445,6 +447,8 @@ TASK_STATE_MACHINE_DATA = {
         events.ACTION_ABANDONED_TASK_DORMANT_ITEMS_FAILED: statuses.CANCELED,
         events.ACTION_ABANDONED_TASK_DORMANT_ITEMS_INCOMPLETE: statuses.CANCELED,
         events.ACTION_ABANDONED_TASK_DORMANT_ITEMS_COMPLETED: statuses.CANCELED,
+        # The action may complete before the request to cancel takes effect.
+        events.ACTION_SUCCEEDED: statuses.SUCCEEDED,
         events.ACTION_SUCCEEDED_TASK_DORMANT_ITEMS_PAUSED: statuses.CANCELED,
         events.ACTION_SUCCEEDED_TASK_DORMANT_ITEMS_CANCELED: statuses.CANCELED,
         events.ACTION_SUCCEEDED_TASK_DORMANT_ITEMS_FAILED: statuses.CANCELED,
